@@ -90,7 +90,13 @@ def generate(seed, tier):
                             not circ else 0)])
         if k == 'compile':
             srcs = [j for j, o in enumerate(objs) if is_model(objs, j)]
+            # besides constant cells, a defined name or a (fully populated)
+            # multi-cell range may be an input of the compiled function
+            extra = [tg for tg in C07.gen_targets(orng, world, 2, True)
+                     if tg[0] in ('name', 'range')][:1] \
+                if orng.chance(.4) else []
             objs.append({'kind': 'compile', 'src': orng.pick(srcs),
+                         'targets': extra,
                          'inputs': sorted(orng.sample(consts, orng.randrange(
                              1, min(2, len(consts)) + 1))),
                          'outputs': sorted(orng.sample(
@@ -244,7 +250,7 @@ def observe_model(world, s, m, ins, adds, all_adds=()):
 
 def call_func(fn, args, n):
     try:
-        res = fn(*[C07.to_lib(a) for a in args[:n]])
+        res = fn(*[C07.to_lib(a) for a in args])
         if not isinstance(res, (list, tuple)):
             res = [res]
         return ['ok'] + [norm_value(v) for v in res]
@@ -252,8 +258,23 @@ def call_func(fn, args, n):
         return ['raised', type(ex).__name__]
 
 
+def n_inputs(spec):
+    return len(spec['inputs']) + len(spec.get('targets') or [])
+
+
+def shaped_args(world, spec, args):
+    """Scalar args for the cell inputs, nested lists for name / range ones."""
+    out = list(args[:len(spec['inputs'])])
+    for k, tg in enumerate(spec.get('targets') or []):
+        h, w = C07.shape_of(world, tg)
+        v = args[(len(spec['inputs']) + k) % len(args)]
+        out.append(v if (h, w) == (1, 1) else [[v] * w for _ in range(h)])
+    return out
+
+
 def compile_func(world, P, m, spec):
     ins = [P.rect_id(*cell_rect(world['cells'][i])) for i in spec['inputs']]
+    ins += [C07.target_id(world, P, tg) for tg in spec.get('targets') or []]
     outs = [P.rect_id(*cell_rect(world['cells'][i])) for i in spec['outputs']]
     return m.compile(ins, outs)
 
@@ -305,7 +326,7 @@ def execute(trace, env=None):
                         continue
                     fn = compile_func(world, P, src.obj, spec)
                     objs[j] = Obj('func', fn, src.adds, {
-                        'spec': spec, 'n': len(spec['inputs'])})
+                        'spec': spec, 'n': n_inputs(spec)})
                 else:
                     new = copy.deepcopy(src.obj) if spec['kind'] == 'deepcopy' \
                         else dill.loads(dill.dumps(src.obj))
@@ -341,6 +362,7 @@ def execute(trace, env=None):
                                               all_adds)
                         else:
                             args = trace['equiv_args'][q]
+                            args = shaped_args(world, o.meta['spec'], args)
                             a = call_func(src.obj, args, o.meta['n'])
                             b = call_func(o.obj, args, o.meta['n'])
                     except Exception as ex:
@@ -393,7 +415,8 @@ def execute(trace, env=None):
                          % (j, o.kind, ', a copy' if o.copied else '',
                             first_diff(got, ref)), obj=j, step=si)
             elif k == 'call':
-                got = call_func(o.obj, op['args'], o.meta['n'])
+                got = call_func(o.obj, shaped_args(world, o.meta['spec'],
+                                                   op['args']), o.meta['n'])
                 ref = refs.get(si)
                 if ref is None:
                     stats['ignored_errors'] += 1
@@ -483,8 +506,9 @@ def precompute_refs(trace, world, s, P, all_adds, stats):
             elif k == 'call' and spec_of.get(j):
                 fm = fresh_model(world, s, adds[j])
                 ff = compile_func(world, P, fm, spec_of[j])
-                refs[si] = call_func(ff, op['args'],
-                                     len(spec_of[j]['inputs']))
+                refs[si] = call_func(ff, shaped_args(world, spec_of[j],
+                                                     op['args']),
+                                     n_inputs(spec_of[j]))
             elif k in ('finish', 'add') and copied[j] and \
                     trace['objects'][j]['kind'] != 'compile':
                 changed[j] = True
